@@ -26,7 +26,7 @@ Heads == <<"def", "let", "quote", "quasiquote", "quasiquoteexpand", "defmacro", 
 PoolText == <<"nil", "1", "x", "(1)", "[x]", "()", "&", "[a &]", "(catch e 1)", "(unquote)", "[1]", "(fn)",
               "\"s\"", ":k", "[x 1]", "[&]", "{:a 1}", "(catch)", "(catch e)", "(finally)", "(splice-unquote)",
               "[a & b]", "(finally 1)", "[& &]", "(fn [x] x)", "(catch 1 2)", "((fn [a &] a) 1)", "(quasiquote (unquote))",
-              "[x y]", "(x)", "(quote)", "{:a (unquote)}">>
+              "[x y]", "(x)", "(quote)", "{:a (unquote)}", "[catch e 1]", "[finally 1]">>
 Pool == [k \in 1..Len(PoolText) |-> Parse(PoolText[k])]
 NP == IF PoolN > 0 /\ PoolN < Len(PoolText) THEN PoolN ELSE Len(PoolText)
 
@@ -40,7 +40,9 @@ Nest == <<"(try _1 _2)", "(try 1 (catch _1 _2))", "(try (throw 1) (catch _1 _2) 
           "(do (defmacro m (fn [& r] _1)) (m))", "(do (defmacro m (fn [a] a)) (m _1 _2))",
           \* functions that went through with-meta, used as macro / called / mapped / applied
           "(do (defmacro m (with-meta (fn [a] a) _1)) (m _2))", "(do (def f (with-meta (fn [a] a) _1)) (f _2) (map f [_3]))",
-          "(do (defmacro m (with-meta (fn [& r] _1) {:d 1})) (m _2 _3))", "((with-meta (fn _1 _2) {:d 1}) _3)">>
+          "(do (defmacro m (with-meta (fn [& r] _1) {:d 1})) (m _2 _3))", "((with-meta (fn _1 _2) {:d 1}) _3)",
+          \* a handler that ends in a call that cannot bind its arguments, with a finally body that looks names up
+          "(try (throw 1) (catch e ((fn [a b] a) _1)) (finally (list _2 _3)))", "(try _1 (catch e ((fn [a & ] a))) (finally _2 _3))">>
 NestT == [k \in 1..Len(Nest) |-> Parse(Nest[k])]
 
 Values == <<"nil", "1", "\"s\"", ":k", "'x", "()", "[1]", "{:a 1}", "#{:a}", "inc", "(atom 1)", "-1", "'(1 2)", "[[1]]">>
